@@ -998,3 +998,54 @@ for _nm in list(REG):
 for _nm, _m in _MODIFIES.items():
     _c = REG[_nm][0].contract
     _c.modifies = list(_c.modifies or []) + [x for x in _m if x not in (_c.modifies or [])]
+
+
+# ============================================================================ timeseries: RQA scalar measures (C08)
+# "determinism, laminarity, average and maximal line lengths, trapping and recurrence times ... are the stated
+# functions of these histograms": the Python bodies are NumPy one-liners; pvc/npvec.py gives 1-d vector semantics
+# (arange, slices, @, sum, extract, nonzero) and the postcondition states the measure as an indexed sum of the
+# histogram H returned by the *_dist() method (P(l) = H[l-1]).
+def _rqa(method, dist, lmin, ensures, extra_inputs=None, requires=()):
+    inputs = {"self.N": "int", "self._epsilon": "float", lmin: "int", "H": "arr:int64:1"}
+    inputs.update(extra_inputs or {})
+    c = K(f"RecurrencePlot.{method}[formula]", "timeseries/recurrence_plot.py", lang="py", func=f"RecurrencePlot.{method}",
+          props=("C08",), py_mode=True, vectors=True, inputs=inputs, bind={"resampled_dist": None},
+          requires=["self.N>=0", "shape(H,0)==self.N", f"{lmin}>=1", "self._epsilon>0",
+                    "all(H[q]>=0 for q in range(self.N))"] + list(requires),
+          call_facts={f"self.{dist}": {"returns": "arr:int64:1", "ensures": ["same_array(result, H)", "shape(result,0)==self.N"]}},
+          ensures=ensures, checks=("shape", "bounds"))
+    c.region = "body"
+    c.required_asserts = []
+    return c
+
+
+_WS = "fsum(lambda i: ({lo}+i)*H[{lo}-1+i], max(self.N-{lo}+1,0))"      # sum_{l=lo..N} l*P(l)
+_CS = "fsum(lambda i: H[{lo}-1+i], max(self.N-{lo}+1,0))"                 # sum_{l=lo..N} P(l)
+for _m, _d, _lm in (("determinism", "diagline_dist", "l_min"), ("laminarity", "vertline_dist", "v_min")):
+    _rqa(_m, _d, _lm, ["result == real(" + _WS.format(lo=_lm) + ") / (real(" + _WS.format(lo="1") + ") + self._epsilon)"])
+for _m, _d, _lm in (("average_diaglength", "diagline_dist", "l_min"), ("average_vertlength", "vertline_dist", "v_min"),
+                    ("average_white_vertlength", "white_vertline_dist", "w_min")):
+    _rqa(_m, _d, _lm, ["result == real(" + _WS.format(lo=_lm) + ") / (real(" + _CS.format(lo=_lm) + ") + self._epsilon)"])
+for _m, _d in (("max_diaglength", "diagline_dist"), ("max_vertlength", "vertline_dist"), ("max_white_vertlength", "white_vertline_dist")):
+    c_ = K(f"RecurrencePlot.{_m}[formula]", "timeseries/recurrence_plot.py", lang="py", func=f"RecurrencePlot.{_m}",
+           props=("C08",), py_mode=True, vectors=True, inputs={"self.N": "int", "H": "arr:int64:1"},
+           requires=["self.N>=0", "shape(H,0)==self.N", "all(H[q]>=0 for q in range(self.N))"],
+           call_facts={f"self.{_d}": {"returns": "arr:int64:1", "ensures": ["same_array(result, H)", "shape(result,0)==self.N"]}},
+           # the largest l with P(l) != 0, and 0 for an empty histogram
+           ensures=["result == 1 + lastnz(lambda i: H[i], self.N)",
+                    "implies(result>=1, H[result-1]!=0)", "all(H[l-1]==0 for l in range(result+1, self.N+1))", "0<=result and result<=self.N"],
+           checks=("shape", "bounds"))
+    c_.region = "body"
+    c_.required_asserts = []
+# entropies: Shannon entropy of the normalised histogram restricted to lengths >= l_min with P(l) != 0
+_ENT_S = "(real(" + "fsum(lambda i: ite(H[{lo}-1+i]!=0, H[{lo}-1+i], 0), max(self.N-{lo}+1,0))" + ") + self._epsilon)"
+for _m, _d, _lm in (("diag_entropy", "diagline_dist", "l_min"), ("vert_entropy", "vertline_dist", "v_min"),
+                    ("white_vert_entropy", "white_vertline_dist", "w_min")):
+    _S = _ENT_S.format(lo=_lm)
+    _rqa(_m, _d, _lm, ["result == -fsum(lambda i: ite(H[%s-1+i]!=0, (real(H[%s-1+i])/%s)*log(real(H[%s-1+i])/%s), 0.0), max(self.N-%s+1,0))"
+                       % (_lm, _lm, _S, _lm, _S, _lm)])
+# aliases: trapping_time = average_vertlength, mean_recurrence_time = average_white_vertlength (arguments forwarded)
+_uses("RecurrencePlot.trapping_time[alias]", "timeseries/recurrence_plot.py", "RecurrencePlot.trapping_time", ("C08",),
+      {"v_min": "int"}, [], {"self.average_vertlength": ["arg0==v_min"]})
+_uses("RecurrencePlot.mean_recurrence_time[alias]", "timeseries/recurrence_plot.py", "RecurrencePlot.mean_recurrence_time", ("C08",),
+      {"w_min": "int"}, [], {"self.average_white_vertlength": ["arg0==w_min"]})
